@@ -53,6 +53,8 @@ type PureFunc struct {
 	Params []SVar
 	Ret    *SType
 	Body   SExpr // nil = uninterpreted
+	Macro  bool  // expanded at each use in the current state (may read the heap)
+	Opaque bool  // declared uninterpreted with a triggered defining axiom (body evaluated on the entry heap; invariants only)
 	Text   string
 	File   string
 	Line   int
@@ -94,7 +96,7 @@ type SpecEnv struct {
 
 var (
 	reFunc  = regexp.MustCompile(`^func\s*(?:\(\s*(?:\w+\s+)?\*?(\w+)\s*\))?\s*([\w$]+)`)
-	reIface = regexp.MustCompile(`^interface\s+(\w+)\.(\w+)`)
+	reIface = regexp.MustCompile(`^interface\s+(?:(\w+)\.)?(\w+)\.(\w+)\s*\(`)
 	rePure  = regexp.MustCompile(`^pure\s+(\w+)\s*\(([^)]*)\)\s*([^=]*?)\s*(?:=\s*(.*))?$`)
 	reLemma = regexp.MustCompile(`^lemma\s+(\w+)\s*\(([^)]*)\)\s*:\s*(.*)$`)
 	reAxiom = regexp.MustCompile(`^axiom\s+(\w+)\s*:\s*(.*)$`)
@@ -202,12 +204,24 @@ func (P *Program) loadContractFile(file string) error {
 			if m == nil {
 				return fmt.Errorf("%s:%d: bad interface header %q", file, line, text)
 			}
-			key := pkg + "." + m[1] + "." + m[2]
+			key := pkg + "." + m[2] + "." + m[3]
+			if m[1] != "" && m[1] != pkg {
+				// contract on another package's interface, used only while verifying functions of this package
+				key = pkg + ":" + m[1] + "." + m[2] + "." + m[3]
+			}
 			cur = &Contract{Key: key, Pkg: pkg, Header: text, File: file, Line: line, Loops: map[int]*LoopSpec{}, Iface: true, NoVerify: true}
 			curLemma = nil
 			P.contracts[key] = cur
 			return nil
-		case strings.HasPrefix(text, "pure "):
+		case strings.HasPrefix(text, "pure "), strings.HasPrefix(text, "macro "), strings.HasPrefix(text, "opaque "):
+			isMacro := strings.HasPrefix(text, "macro ")
+			isOpaque := strings.HasPrefix(text, "opaque ")
+			if isMacro {
+				text = "pure " + strings.TrimPrefix(text, "macro ")
+			}
+			if isOpaque {
+				text = "pure " + strings.TrimPrefix(text, "opaque ")
+			}
 			m := rePure.FindStringSubmatch(text)
 			if m == nil {
 				return fmt.Errorf("%s:%d: bad pure decl %q", file, line, text)
@@ -220,7 +234,7 @@ func (P *Program) loadContractFile(file string) error {
 			if err != nil {
 				return fmt.Errorf("%s:%d: %v", file, line, err)
 			}
-			pf := &PureFunc{Name: m[1], Pkg: pkg, Params: params, Ret: ret, Text: text, File: file, Line: line}
+			pf := &PureFunc{Name: m[1], Pkg: pkg, Params: params, Ret: ret, Text: text, File: file, Line: line, Macro: isMacro, Opaque: isOpaque}
 			if strings.TrimSpace(m[4]) != "" {
 				e, err := parseSpec(m[4])
 				if err != nil {
